@@ -61,6 +61,9 @@ func TestMain(m *testing.M) {
 		os.Exit(0)
 	}
 	procs := 1
+	if os.Getenv("VERIF_RACEMODE") == "1" {
+		procs = 4
+	}
 	if v := os.Getenv("VERIF_PROCS"); v != "" {
 		fmt.Sscanf(v, "%d", &procs)
 	}
@@ -125,6 +128,15 @@ func fillRecord(rec *RunRecord, k *Kernel, reason string) {
 func runWorld(t *testing.T, p *Plan, rec *RunRecord, keepLog bool) {
 	k := NewKernel(p, keepLog)
 	k.Strict = os.Getenv("VERIF_STRICT") != "0"
+	if os.Getenv("VERIF_RACEMODE") == "1" {
+		// free-running race pass: UDP-listener server-world plans (with raw or real clients)
+		if p.World != "srv" || p.Cfg.Listener == "tcp" || p.Cfg.Extra["tcp_peers"] == 1 {
+			rec.Reason = "skipped"
+			return
+		}
+		k.Free, k.Strict = true, false
+		k.Stats.Off = true
+	}
 	k.OnFatal = func(v *Violation) {
 		// a busy loop cannot be unwound: report and leave the process
 		fillRecord(rec, k, "spin")
@@ -143,7 +155,7 @@ func runWorld(t *testing.T, p *Plan, rec *RunRecord, keepLog bool) {
 	case "srv":
 		w := NewSrvWorld(k, p)
 		reason := w.Run(maxStepsFor(p))
-		if reason == "stopped" {
+		if reason == "stopped" && !k.Free {
 			w.postRun(rec) // end-of-run oracles need the complete teardown
 		}
 		fillRecord(rec, k, reason)
@@ -182,7 +194,9 @@ func TestWorker(t *testing.T) {
 			fmt.Println(string(b))
 		}
 	case "explore":
-		go watchdog(*fCur)
+		if os.Getenv("VERIF_RACEMODE") != "1" {
+			go watchdog(*fCur) // the free-running mode has no scheduler steps to watch
+		}
 		if *fCur != "" {
 			debug.SetCrashOutput(mustCreate(*fCur+".crash"), debug.CrashOptions{})
 		}
